@@ -610,12 +610,10 @@ public:
 	bool SerializeValue(T& value)
 	{
 		CheckEnd();
-		if (mMsgPackReader->ReadValue(value))
-		{
-			++mIndex;
-			return true;
-		}
-		return false;
+		const bool result = mMsgPackReader->ReadValue(value);
+		// The value has been consumed even when it was skipped by policy
+		++mIndex;
+		return result;
 	}
 
 	/// <summary>
@@ -637,9 +635,11 @@ public:
 	std::optional<CMsgPackReadArrayScope<TReader>> OpenArrayScope(size_t)
 	{
 		CheckEnd();
-		if (size_t sz = 0; mMsgPackReader->ReadArraySize(sz))
-		{
-			++mIndex;
+		size_t sz = 0;
+		const bool result = mMsgPackReader->ReadArraySize(sz);
+		// The value has been consumed even when it was skipped by policy
+		++mIndex;
+		if (result) {
 			return std::make_optional<CMsgPackReadArrayScope<TReader>>(sz, mMsgPackReader, GetContext(), this);
 		}
 		return std::nullopt;
@@ -648,9 +648,11 @@ public:
 	std::optional<CMsgPackReadObjectScope<TReader>> OpenObjectScope(size_t)
 	{
 		CheckEnd();
-		if (size_t sz = 0; mMsgPackReader->ReadMapSize(sz))
-		{
-			++mIndex;
+		size_t sz = 0;
+		const bool result = mMsgPackReader->ReadMapSize(sz);
+		// The value has been consumed even when it was skipped by policy
+		++mIndex;
+		if (result) {
 			return std::make_optional<CMsgPackReadObjectScope<TReader>>(sz, mMsgPackReader, GetContext(), this);
 		}
 		return std::nullopt;
